@@ -195,6 +195,21 @@ func rulePoolReset(c *Ctx, fns []*ssa.Function) {
 			} else if !dominatesInstr(get, putDefer) {
 				problems = append(problems, "deferred Put does not follow Get")
 			}
+			// no use after the object went back to the pool: an immediate Put (a dropped `defer`) hands the
+			// object to the next caller while this one is still working with it
+			for putIn, u := range uses {
+				if u != "Put" {
+					continue
+				}
+				for useIn, u2 := range uses {
+					if u2 == "Put" || useIn == putIn {
+						continue
+					}
+					if later, _ := reachesWithout(c.P, putIn, false, func(in ssa.Instruction) bool { return in == useIn }, func(ssa.Instruction) bool { return false }); later {
+						problems = append(problems, fmt.Sprintf("the object is used (%s at %s) after it was put back into the pool at %s: another goroutine can take it from the pool and use it at the same time", u2, c.P.pos(instrPos(useIn)), c.P.pos(instrPos(putIn))))
+					}
+				}
+			}
 			// Reset before any other use
 			isReset := func(in ssa.Instruction) bool { return uses[in] == "Reset" }
 			found, wit := reachesWithout(c.P, get, false, func(in ssa.Instruction) bool {
